@@ -57,3 +57,11 @@ func c07Honest(origin string, registered ...string) (*RateLimitedIssuer, RateLim
 var t3LastBlind, t3LastSecret, t3LastChallenge, t3LastNonce []byte
 
 func hexOf(b []byte) string { return hex.EncodeToString(b) }
+
+// C07: the rate-limited issuer signs only authentic, untampered requests.
+func c07Rejected(issuer *RateLimitedIssuer, wire []byte) {
+	resp, key, err := issuer.Evaluate(wire)
+	vAssert(err != nil, "rejected-with-error")
+	vAssert(resp == nil, "no-response")
+	vAssert(key == nil, "no-blinded-request-key")
+}
